@@ -428,3 +428,5 @@ def _new_file(ctx, p, fs, targets):
            "" if ok else "the final path is first touched by %s" % (
                first_target[0] if first_target else "nothing"),
            None if ok else render_path(p.events))
+
+EXPLANATION += ' Batch 6: except / finally blocks of the database module change no file (scratch-file clean-up excepted).'
